@@ -28,7 +28,7 @@ ASSUMPTIONS = ["callbacks raising ordinary exceptions are C13's subject and not 
                "on_error itself never raises; KeyboardInterrupt inside on_close is not generated",
                "bound B = 30 virtual seconds covers the library's 10 s select period + 3 s close wait + 3 s thread join"]
 MODES = ("close_body", "close_nobody", "eof", "reset", "protocol", "utf8", "ping_timeout", "refused", "rejected",
-         "cb_close", "thread_close", "kbi")
+         "cb_close", "thread_close", "kbi", "close_badutf8")
 CB_FOR_MODE = ("on_open", "on_message", "on_data", "on_ping", "on_pong")
 B = 30 * S
 WALL_CAP = {"quick": 600, "thorough": 3300}
@@ -108,7 +108,8 @@ def gen(rng):
         sc["reconnect"] = rng.choice((S // 2, 2 * S))
     if rng.random() < 0.4 and not sc.get("reconnect"):
         sec = gen_run(rng, allow_async=False)
-        while sec.get("cb") is not None and sec.get("cb") == first.get("cb"):
+        while (sec.get("cb") is not None and sec.get("cb") == first.get("cb")) or \
+                (sec["mode"] == "close_badutf8" and first["mode"] == "utf8") or (first["mode"] == "close_badutf8" and sec["mode"] == "utf8"):
             sec = gen_run(rng, allow_async=False)
         if sec["mode"] == "ping_timeout":
             first["interval"], first["ptimeout"] = sec["interval"], sec["ptimeout"]
@@ -253,6 +254,15 @@ def _conn_for(r, cbs):
         script.append({"t": end_t, "hex": R.encode_frame(1, 8, code.to_bytes(2, "big") + reason.encode()).hex()})
         exp["close_args"] = (("i", code), ("s", reason))
         exp["ret"] = False
+    elif mode == "close_badutf8":
+        # UTF-8 validation switched off (documented run_forever option): the server's close reason is not valid UTF-8.
+        # What 'reason' on_close then gets is not pinned down; that on_close fires once, last, with the code, and that
+        # the run ends and the object can be run again, is.
+        code = int(r.get("code", 1000))
+        script.append({"t": end_t, "hex": R.encode_frame(1, 8, code.to_bytes(2, "big") + b"bad\xff\xfereason").hex()})
+        exp["close_args"] = (("i", code), None)
+        exp["ret"] = False
+        runopt["skip_utf8"] = True
     elif mode == "close_nobody":
         script.append({"t": end_t, "hex": R.encode_frame(1, 8, b"").hex()})
         exp["ret"] = False
@@ -331,12 +341,18 @@ def run(sc, choices=None):
             if second["mode"] == "thread_close":
                 raise InvalidScenario("second run is never closed asynchronously")
             spec2, over2, ro2, _c2, exp2 = _conn_for(second, cbs)
-            if ro2 != {k_: v_ for k_, v_ in ro1.items() if k_ not in ("tls", "reconnect")}:
+            if {k_: v_ for k_, v_ in ro2.items() if k_ != "skip_utf8"} != {k_: v_ for k_, v_ in ro1.items() if k_ not in ("tls", "reconnect", "skip_utf8")}:
                 # run options are fixed per app driver call: use the first run's
                 if second["mode"] == "ping_timeout":
                     raise InvalidScenario("ping settings differ between runs")
             if over2 and over1 and set(over2) & set(over1):
                 raise InvalidScenario("same callback used to end both runs")
+            if ro1.get("skip_utf8") and second["mode"] == "utf8":
+                raise InvalidScenario("validation is off for both runs: an invalid text message is not an error ending then")
+            if ro2.get("skip_utf8"):
+                asc["run"] = dict(asc["run"], skip_utf8=True)
+                if first["mode"] == "utf8":
+                    raise InvalidScenario("validation is off for both runs: an invalid text message is not an error ending then")
             for k, v in over2.items():
                 # the callback must not already fire (and act) during the first run
                 vv = dict(v)
@@ -486,6 +502,8 @@ def _judge(res, run_, exp, r, ctx, cbs, w, async_close=False):
     if async_close and mode in ("close_body",):
         # the server's close frame and our own close() race: either reason is acceptable
         ok = args in (want, (("n",), ("n",)))
+    elif want[1] is None:
+        ok = len(args) == 2 and args[0] == want[0]
     else:
         ok = args == want
     if not ok:
@@ -496,7 +514,7 @@ def _judge(res, run_, exp, r, ctx, cbs, w, async_close=False):
     want_ret = exp.get("ret")
     if async_close:
         want_ret = None if mode != "close_body" and mode != "close_nobody" else False
-        if mode in ("close_body", "close_nobody"):
+        if mode in ("close_body", "close_nobody", "close_badutf8"):
             want_ret = False
     if "on_error" in cbs and mode not in ():
         if bool(run_.ret) != err_called:
